@@ -14,6 +14,7 @@ A_ITER = [
 
 PROPS = {
     "C17": dict(
+        kani=True,
         slices=["time", "network", "net_enum"],
         witness_family="net",
         level_text="Verus proves, for all networks satisfying Network::wf and all node pairs, that the real Network::can_reach / minimal_duration_between_nodes equal the timing rule written from the property statement; claims nothing about JSON loading",
@@ -61,11 +62,11 @@ PROPS["C10"] = dict(
     assumptions=A_COMMON + A_ITER + ["A-path, A-type as for C01", "schedule-level invariants (formations, listings, depot usage, cycles) not under contract"],
 )
 PROPS["C02"] = dict(
-    slices=["limits"],
+    slices=["limits", "admission"],
     witness_family="net",
-    level_text="Verus proves the per-call contracts: maximal_formation_count_for returns the smaller of the limits that are present (None iff neither), Depot::capacity_for is bounded by total and per-type capacity and is 0 for unlisted types, number_of_vehicles_required_to_serve is the exact ceiling; the composition over schedule histories (train_formations single writer, spawn paths) is a structural argument, not machine-checked",
-    level_note="trusted: vstd, key-model axioms, u32::div_ceil and Option::or specs; stub: VehicleTypes::get; admission checks in schedule/modifications.rs (vehicle_replacement_in_train_formation, can_depot_spawn_vehicle_custom_usage) and the flow bounds are not under contract in this revision",
-    scope="limit combination, depot capacity, vehicles required",
+    level_text="Verus proves the per-call contracts: maximal_formation_count_for returns the smaller of the limits that are present (None iff neither), Depot::capacity_for is bounded by total and per-type capacity and is 0 for unlisted types, number_of_vehicles_required_to_serve is the exact ceiling; the schedule-level admission checks are exact: vehicle_replacement_in_train_formation lets a formation grow only while it is strictly below the track count (maintenance) resp. the combined formation limit (service) and otherwise performs exactly replace / remove / add_at_tail / no-op, can_depot_spawn_vehicle_custom_usage is true iff the type is listed with room left for the type and in total; the composition over schedule histories (train_formations single writer, spawn paths) is a structural argument, not machine-checked",
+    level_note="trusted: vstd, key-model axioms, u32::div_ceil and Option::or specs; stubs: VehicleTypes::get, VehicleTypes::iter; A-im (im::HashMap / HashSet shims), std HashMap Index spec; update_train_formation (the caller loop) and the flow bounds in min_cost_flow_solver.rs are not under contract",
+    scope="limit combination, depot capacity, vehicles required, formation/track admission, depot spawn admission, unserved passengers per node",
     assumptions=A_COMMON + ["A-stub: VehicleTypes::get returns the stored type", "flow upper bounds in min_cost_flow_solver.rs not decided"],
 )
 PROPS["C03"] = dict(
@@ -77,6 +78,7 @@ PROPS["C03"] = dict(
     assumptions=A_COMMON + ["precondition: the two nodes are connectable (holds for consecutive tour nodes by C01) and the instance does not start within one dead-head duration of year 0"],
 )
 PROPS["C09"] = dict(
+    kani=True,
     slices=["tour_mod", "formation"],
     witness_family="tour",
     level_text="tour level: Verus proves that compute_*_of_nodes (and hence new_computing / every freshly built tour) equal the from-scratch meaning of the five cached figures written from the property text, and that replace_start_depot, replace_end_depot, remove and insert_path keep all five caches exact (delta formulas = recomputation), including tours through the infinitely distant overflow depot; schedule-level aggregates are NOT decided",
@@ -94,9 +96,9 @@ PROPS["C13"] = dict(
 )
 
 PROPS["C15"] = dict(
-    slices=["transition"],
+    slices=["transition", "tsp_ranges"],
     witness_family="trans",
-    level_text="bookkeeping half: Verus proves that every rotation-cycle operation of solution/src/transition (update_vehicle, add_vehicle_to_own_cycle, remove_vehicle, add_vehicle_at_the_end, move_vehicle, replace_cycle, three_opt) preserves the representation invariant written from the property (cycles duplicate-free and pairwise disjoint, lookup and empty-cycle list match the cycles, every cycle counter and both totals equal their recomputed values); 'optimisation never worsens' is a property of rapid_solve's acceptance rule and is assumed; Transition::one_cluster_per_maintenance and the 3-opt index ranges are not under contract in this revision",
+    level_text="bookkeeping half: Verus proves that every rotation-cycle operation of solution/src/transition (update_vehicle, add_vehicle_to_own_cycle, remove_vehicle, add_vehicle_at_the_end, move_vehicle, replace_cycle, three_opt) preserves the representation invariant written from the property (cycles duplicate-free and pairwise disjoint, lookup and empty-cycle list match the cycles, every cycle counter and both totals equal their recomputed values); 'optimisation never worsens' is a property of rapid_solve's acceptance rule and is assumed; the 3-opt index ranges of TransitionCycleNeighborhood::neighbors_of (R8 fragments) are total for every cycle length and only generate triples satisfying three_opt's precondition; Transition::one_cluster_per_maintenance is not under contract",
     level_note="trusted: vstd, A-im (im::HashMap shim with Map view), SeqIter shim incl. filter, Option::copied / Vec::extend / Vec::retain specs, stubs Tour::{maintenance_counter,start_depot,end_depot}, TransitionCycle::iter; caller-side: the vehicle passed to update_vehicle/remove_vehicle is not a key of updated_tours",
     scope="solution/src/transition.rs (get_successor_of), transition/transition_cycle.rs, transition/modifications.rs",
     assumptions=A_COMMON + [
@@ -108,12 +110,21 @@ PROPS["C15"] = dict(
     ],
 )
 PROPS["C05"] = dict(
-    slices=["transition", "tour_mod"],
+    slices=["transition", "tour_mod", "reassign"],
     witness_family="trans",
-    level_text="building blocks only: Verus proves that the rotation cycles partition the vehicles they were given under every cycle operation (Transition::wf), that get_successor_of returns the cyclic successor cycle[(pos+1) % len], and that Tour::replace_end_depot changes exactly the end depot of a tour; the wiring loop reassign_end_depots_consistent_with_transitions itself and the JSON emission are NOT under contract in this revision",
-    level_note="trusted base of C15 and C09; the loop that applies get_successor_of / replace_end_depot to every vehicle is read, not verified",
-    scope="Transition partition invariant, get_successor_of, Tour::replace_end_depot",
-    assumptions=A_COMMON + ["reassign_end_depots_consistent_with_transitions (schedule/modifications.rs:823-875) applies these building blocks to every vehicle: not under contract", "fleet_to_json prints these cycles and depots (A-json)"],
+    level_text="Verus proves on the real code: the rotation cycles partition the vehicles they were given under every cycle operation (Transition::wf); get_successor_of returns the cyclic successor cycle[(pos+1) % len]; Tour::replace_end_depot changes exactly the end depot; and reassign_end_depots_consistent_with_transitions gives every vehicle's tour the end node of the depot where its cyclic successor starts (a one-vehicle cycle ends where it starts), leaving every start depot, every activity, all other tours, formations and listings unchanged. The JSON emission (fleet_to_json) is an assumption",
+    level_note="trusted: base of C15 and C09; stubs vehicles_iter_all / tour_of / vehicle_type_of; update_depot_usage and update_transitions_and_violation_fast are uninterpreted (they cannot change `tours`); sched_ok (every listed vehicle has a well-formed real tour, a type and a transition containing it; depot table as built by Network::new) is a precondition",
+    scope="Transition partition invariant, get_successor_of, Tour::replace_end_depot, Schedule::reassign_end_depots_consistent_with_transitions",
+    assumptions=A_COMMON + ["sched_ok: schedule-level consistency is a precondition (not proved to be preserved by the other schedule modifications)", "A-depots: Network::new builds the depot table (end node of depot d is an EndDepot node with depot_idx d)", "fleet_to_json prints these cycles and depots (A-json)", "A-im"],
+)
+
+PROPS["C16"] = dict(
+    slices=["pipeline"],
+    witness_family=None,
+    level_text="data-flow (wiring) proof: with every stage abstracted by an uninterpreted function of its inputs, Verus proves on the verbatim bodies of server::solve_instance and internal::run that the answer is output(evaluate(reassign(set_transitions(S, {vt -> optimise(transition_of(S, vt))})))) with S the local-search result of the depot-improved min-cost-flow solution (or that solution itself without maintenance): no stage's result is discarded or replaced by an earlier one. What each stage computes is NOT decided here",
+    level_note="trusted: every callee is a stub `r == spec_stage(args)` (signatures extracted from /repo resp. the pinned rapid_solve source), three accessor-undoes-constructor assumptions (A-pipe-proj), A-im, A-iter for-loops, A-clone; println! dropped (R1)",
+    scope="server/src/lib.rs::solve_instance, internal/src/lib.rs::run",
+    assumptions=["A-pipe: each stage is a function of its arguments (no hidden state), stub signatures as in the real crates", "A-pipe-proj: Objective::evaluate keeps the solution, ScheduleWithInfo::new / TransitionWithInfo::new keep their payload", "A-im, A-iter, A-clone"],
 )
 
 NOT_APPLICABLE = {
@@ -123,6 +134,5 @@ NOT_APPLICABLE = {
     "C08": "the acceptance rule and fixpoint live in rapid_solve (rayon, channels, dyn objects); trajectory property",
     "C11": "neighbourhood candidates are compositions of schedule-level modifications generated under rayon; outside per-function contracts",
     "C14": "optimality of the circulation returned by rs_graph::mcf::network_simplex; the network construction is a 230-line loop over HashMaps with I/O",
-    "C16": "pending: wiring slice not built yet in this revision",
     "C18": "HTTP concurrency and fault isolation across tokio tasks: no thread support in Verus (without rewriting to its permission types) or Kani",
 }
